@@ -76,6 +76,51 @@ def label_stores(fn):
     return out
 
 
+def sweep_centre_rule(chk, src):
+    """abstract run of MatrixProduct.canonicalise (with iter_idx_list and _switch_direction run from their own source, _push_cano as 'the centre at idx moves
+    one site in the sweep direction and qnidx follows', as _update_ms does) on chains of 2..5 sites, both directions, every stop site: on return the label
+    centre the object claims (qnidx) is the site where the tensors and labels actually have their centre, and the direction flag is usable for the next
+    sweep (centre at the first site -> to_right, at the last site -> not to_right)."""
+    from ..syminterp import SymInterp, Sym, SymRaise
+    chk.rule("sweep-centre", "canonicalise (full and partial sweeps): the claimed label centre and direction match where the sweep actually left the centre", 20)
+    fi = src.func(MP, "MatrixProduct.canonicalise")
+    it_src = src.func(MP, "MatrixProduct.iter_idx_list")
+    sw_src = src.func(MP, "MatrixProduct._switch_direction")
+    for n in (2, 3, 4, 5):
+        for to_right in (True, False):
+            start = 0 if to_right else n - 1
+            stops = [None] + ([k for k in range(1, n)] if to_right else [k for k in range(n - 2, -1, -1)])
+            for stop in stops:
+                me = Sym("self", site_num=n, qnidx=start, to_right=to_right, centre=start)
+                probs = []
+                it = SymInterp(src, None, {})
+
+                def push(idx, me=me, probs=probs):
+                    if idx != me.centre:
+                        probs.append(f"_push_cano({idx}) while the centre is at site {me.centre}")
+                    me.centre = idx + 1 if me.to_right else idx - 1
+                    if not 0 <= me.centre < me.site_num:
+                        probs.append(f"centre pushed off the chain ({me.centre})")
+                    me.qnidx = me.centre
+                me.__dict__.update(_push_cano=push, iter_idx_list=lambda full=True, stop_idx=None, me=me, it=it: it.call_function(it_src, [me], {"full": full, "stop_idx": stop_idx}),
+                                   _switch_direction=lambda me=me, it=it: it.call_function(sw_src, [me]))
+                try:
+                    it.call_function(fi, [me] + ([] if stop is None else [stop]))
+                except SymRaise as e:
+                    probs.append(f"raises {e}")
+                want_centre = (n - 1 if to_right else 0) if stop is None else stop
+                if not probs:
+                    if me.centre != want_centre:
+                        probs.append(f"the centre is left at site {me.centre}, expected {want_centre}")
+                    if me.qnidx != me.centre:
+                        probs.append(f"qnidx claims site {me.qnidx} but tensors and labels have their centre at site {me.centre}")
+                    elif (me.centre == 0 and n > 1 and me.to_right is not True) or (me.centre == n - 1 and n > 1 and me.to_right is not False):
+                        probs.append(f"centre at site {me.centre} of {n} with to_right={me.to_right}: the next sweep's entry assertion / direction is wrong")
+                chk.ob("sweep-centre", f"canonicalise[n={n}, to_right={to_right}, stop_idx={stop}]", not probs, fi.where, probs[:2] or "claimed centre = actual centre", "claimed centre = actual centre",
+                       line=fi.node.lineno, detail="; ".join(probs[:2]) + " - bond labels left of the claimed centre are read as left-system labels, right of it as right-system labels: "
+                                                   "a wrong claim makes later blocked decompositions discard non-zero blocks in sectors with non-zero total")
+
+
 def run(chk):
     src = chk.src
     chk.explanation = (
@@ -89,6 +134,7 @@ def run(chk):
     chk.assumptions = ["svd_qn returns (u, [s,] qnl, v, [s,] qnr): labels of the columns of u and v respectively (read in svd_qn.py)",
                        "select_basis returns (ms, dim, qn of the kept columns, complement)"]
     C03.run_align_and_charge(chk, src)
+    sweep_centre_rule(chk, src)
     C03.run_merge_order(chk, src)
     C03.run_label_freshness(chk, src)
     chk.rule("mask-and-outer", "sector mask and label merge helpers (abstract runs)", 2)
